@@ -23,6 +23,12 @@ Pipeline of one run (`zoo_pipeline`):
      SIBLINGS (T, 1) / (T, 2) of Rust types the shape accesses statically (present or absent
      independently of (T, 0)); they are further resources the shape never mentions: probed like
      every cell, and never touched according to the model.
+     Always present too: derived structs with 27..53 fields.  Setup environments: in a share of the
+     composed cases one or two resources are of a type whose Default PANICS (setup must complete
+     when they exist, panic at that member when they do not), and in a share of the setup runs a
+     guard of one present resource was leaked (mem::forget) before the setup (the pinned code
+     panics at the member that provides it and modifies nothing); Default::default() must never
+     be evaluated for a resource that exists.
   3. the binaries run every type: reads()/writes() (type and StaticAccessor of a real System),
      fetch through 4 paths with single-threaded borrow probes while alive / after drop,
      setup through 4 paths on worlds with distinctive pre-existing values.  Observations are
@@ -275,6 +281,9 @@ def zoo_pipeline(ctx, invariants, tier=None, scale=1.0, what="", light=False):
         "members_spelled_as_bare_type_parameter": stats["members_spelled_as_bare_type_parameter"],
         "custom_handler_leaves": stats["custom_handler_leaves"],
         "dynamic_id_sibling_cells": stats["dynamic_id_sibling_cells"],
+        "resources_with_panicking_default": stats["resources_with_panicking_default"],
+        "max_struct_fields": stats["max_struct_fields"],
+        "setup_runs_with_a_leaked_guard": tot.get("setup_leaked", 0), "setup_runs_that_panicked": tot.get("setup_panics", 0),
         "max_flattened_reads": stats["max_flattened_reads"], "max_flattened_writes": stats["max_flattened_writes"],
         "arities_present": stats["arities_present"], "arity_positions_covered": stats["arity_positions_covered"],
         "max_depth": stats["max_depth"], "tlc_emitted": stats["emitted"],
